@@ -132,3 +132,116 @@ pub fn ref_run_repeat(p: &Program, sigs: &[Sig], script: &[Step]) -> RefRun {
     env.repeat_last = true;
     run(p, sigs, &mut env, Fuel::default())
 }
+
+/// One use of a loaded test: a dynamic run against a scripted driver, or a static iteration.
+#[derive(Clone)]
+pub struct Use {
+    pub script: Vec<Step>,
+    pub ov: bool,
+    pub static_iteration: bool,
+}
+
+impl Use {
+    pub fn dynamic(script: Vec<Step>, ov: bool) -> Use {
+        Use { script, ov, static_iteration: false }
+    }
+    pub fn json(&self) -> Value {
+        json!({"script": script_json(&self.script), "driver_overrides_write_input": self.ov, "static": self.static_iteration})
+    }
+    pub fn from_json(j: &Value) -> Use {
+        Use {
+            script: j["script"].as_array().map(|a| a.iter().filter_map(Step::from_json).collect()).unwrap_or_default(),
+            ov: j["driver_overrides_write_input"].as_bool().unwrap_or(true),
+            static_iteration: j["static"].as_bool().unwrap_or(false),
+        }
+    }
+}
+
+pub fn obs_lines(o: &Obs) -> Vec<String> {
+    let mut v = obs_items_brief(o);
+    v.push(format!("call kinds: {}", o.log.iter().map(|c| if c.rw { "rw" } else { "w" }).collect::<Vec<_>>().join(" ")));
+    v
+}
+
+/// The same loaded `TestCase` object is used several times in a row (`uses`, in order); what the
+/// last use observes is returned, next to what the same use observes on a freshly loaded test.
+/// A test's behaviour is a function of its text, its signal list and the driver's responses:
+/// the two must be equal.
+pub fn reuse_observations(text: &str, sigs: &[Sig], uses: &[Use], opts: &RunOpts) -> Option<(Vec<String>, Vec<String>)> {
+    let run_use = |tc: &digital_test_runner::TestCase, u: &Use| -> Vec<String> {
+        if u.static_iteration {
+            match run_static_opt(tc, opts.max_next, opts.seed, opts.budget, opts.continue_after_error) {
+                StaticObs::Rows(rows, ended) => rows.iter().map(|r| format!("{r:?}")).chain(std::iter::once(format!("ended: {ended}"))).collect(),
+                other => vec![format!("{other:?}")],
+            }
+        } else {
+            obs_lines(&run_loaded(tc, sigs, u.ov, &u.script, opts))
+        }
+    };
+    let tc = load(text, sigs, opts.budget).ok()?;
+    let mut reused = vec![];
+    for u in uses {
+        reused = run_use(&tc, u);
+    }
+    let fresh_tc = load(text, sigs, opts.budget).ok()?;
+    let fresh = run_use(&fresh_tc, uses.last()?);
+    Some((reused, fresh))
+}
+
+pub fn reuse_replay(text: &str, sigs: &[Sig], uses: &[Use], opts: &RunOpts, reused: &[String], fresh: &[String]) -> Value {
+    json!({
+        "kind": "reuse",
+        "text": text,
+        "signals": sigs_json(sigs),
+        "uses": uses.iter().map(|u| u.json()).collect::<Vec<_>>(),
+        "max_next": opts.max_next,
+        "continue_after_error": opts.continue_after_error,
+        "repeat_last": opts.repeat_last,
+        "seed": opts.seed,
+        "expected": fresh,
+        "observed": reused,
+    })
+}
+
+pub fn replay_reuse(j: &Value) -> Vec<String> {
+    let sigs: Vec<Sig> = j["signals"].as_array().map(|a| a.iter().filter_map(|s| s.as_str().and_then(Sig::parse)).collect()).unwrap_or_default();
+    let uses: Vec<Use> = j["uses"].as_array().map(|a| a.iter().map(Use::from_json).collect()).unwrap_or_default();
+    let mut opts = RunOpts::new(j["max_next"].as_u64().unwrap_or(40) as usize);
+    opts.continue_after_error = j["continue_after_error"].as_bool().unwrap_or(false);
+    opts.repeat_last = j["repeat_last"].as_bool().unwrap_or(true);
+    opts.seed = j["seed"].as_u64().unwrap_or(1);
+    match reuse_observations(j["text"].as_str().unwrap_or(""), &sigs, &uses, &opts) {
+        Some((reused, _)) => reused,
+        None => vec!["test does not load".into()],
+    }
+}
+
+/// Every ordered pair (and, with `triples`, the triples a-b-a... not needed) of `uses` on one
+/// loaded test: the second use must observe what it observes on a freshly loaded test.
+pub fn check_reuse_pairs(st: &mut crate::engine::Stats, order: u64, what: &str, text: &str, sigs: &[Sig], uses: &[Use], opts: &RunOpts) {
+    for (i, a) in uses.iter().enumerate() {
+        for (k, b) in uses.iter().enumerate() {
+            if i == k {
+                continue;
+            }
+            let pair = [a.clone(), b.clone()];
+            let Some((reused, fresh)) = reuse_observations(text, sigs, &pair, opts) else { return };
+            st.evals += 1;
+            st.nontrivial += 1;
+            st.witness("one_loaded_test_used_twice_with_different_drivers");
+            if reused != fresh {
+                let first = reused.iter().zip(fresh.iter()).position(|(x, y)| x != y).unwrap_or(reused.len().min(fresh.len()));
+                let summary = format!(
+                    "{what}\nprogram:\n{text}signals: {}\nthe loaded test is first used with [{}], then with [{}]\nsecond use, line {first}: {}\nsame use of a freshly loaded test: {}",
+                    sigs.iter().map(|s| s.show()).collect::<Vec<_>>().join(", "),
+                    if a.static_iteration { "static iteration".to_string() } else { a.script.iter().take(3).map(|s| s.json().to_string()).collect::<Vec<_>>().join(" ") },
+                    if b.static_iteration { "static iteration".to_string() } else { b.script.iter().take(3).map(|s| s.json().to_string()).collect::<Vec<_>>().join(" ") },
+                    reused.get(first).cloned().unwrap_or("(nothing)".into()),
+                    fresh.get(first).cloned().unwrap_or("(nothing)".into())
+                );
+                st.violation("a loaded test behaves differently on its second use", order << 12 | (i as u64) << 6 | k as u64, summary, || reuse_replay(text, sigs, &pair, opts, &reused, &fresh));
+                return;
+            }
+        }
+    }
+}
